@@ -40,6 +40,7 @@ type Path struct {
 	EndNode ast.Node
 	ver     map[types.Object]int // assignment epoch of locals (copy on write)
 	defs    map[types.Object]string
+	bind    map[types.Object]ast.Expr // locals bound to a helper's returned expression by an inline frame (copy on write)
 }
 
 // Formulas returns the formulas of all decisions on the path.
@@ -121,6 +122,7 @@ type pathEnum struct {
 	overflow    bool
 	unsup       []string
 	inLoop      int
+	frameBind   bool // applying the result binding of an inline frame
 }
 
 const pathCap = 4096
@@ -186,7 +188,7 @@ func (pe *pathEnum) events(n ast.Node) []Event {
 }
 
 func clonePath(p Path) Path {
-	q := Path{End: p.End, EndNode: p.EndNode, ver: p.ver, defs: p.defs}
+	q := Path{End: p.End, EndNode: p.EndNode, ver: p.ver, defs: p.defs, bind: p.bind}
 	q.Events = append([]Event(nil), p.Events...)
 	q.Conds = append([]CondStep(nil), p.Conds...)
 	return q
@@ -208,6 +210,9 @@ func addCond(p *Path, cs CondStep) {
 
 // curEnum is the enumerator in use (enumeration is single-threaded).
 var curEnum *pathEnum
+
+// curFrames is the stack of inline frames being enumerated.
+var curFrames []*inlineFrame
 
 func (pe *pathEnum) xlat(ver map[types.Object]int, defs map[types.Object]string) *condXlat {
 	return &condXlat{info: pe.info, fd: pe.fd, ver: ver, uniq: &pe.uniq, pure: pe.pure, defs: defs, callOrd: pe.callOrd, pathMode: true}
@@ -358,7 +363,7 @@ func (pe *pathEnum) applyAssign(q *Path, s ast.Stmt, assigned []types.Object) {
 					if o == nil {
 						continue
 					}
-					name := o.Name()
+					name := varKey(o)
 					if v := nv[o]; v > 0 {
 						name = fmt.Sprintf("%s@%d", name, v)
 					}
@@ -392,6 +397,12 @@ func (pe *pathEnum) applyAssign(q *Path, s ast.Stmt, assigned []types.Object) {
 				o := pe.info.ObjectOf(id)
 				if o == nil {
 					continue
+				}
+				if call, isCall := ast.Unparen(as.Rhs[i]).(*ast.CallExpr); isCall && pe.frameBind && hasImpureCall(pe, as.Rhs[i]) && len(as.Rhs) > 1 {
+					// one of several right-hand sides is an impure call (results of an inlined helper): name it by its call
+					if name, ok := pe.callOrd[call]; ok {
+						nd[o] = name
+					}
 				}
 				if !hasImpureCall(pe, as.Rhs[i]) {
 					if _, isLit := ast.Unparen(as.Rhs[i]).(*ast.FuncLit); !isLit {
@@ -521,6 +532,9 @@ func (pe *pathEnum) stmt(in []Path, s ast.Stmt) []Path {
 	case nil:
 		return in
 	case *ast.BlockStmt:
+		if fr := inlineFrames[s]; fr != nil {
+			return pe.frame(in, s, fr)
+		}
 		return pe.seq(in, s.List)
 	case *ast.LabeledStmt:
 		return pe.stmt(in, s.Stmt)
@@ -750,6 +764,75 @@ func (pe *pathEnum) stmt(in []Path, s ast.Stmt) []Path {
 		pe.unsup = append(pe.unsup, "statement kind")
 		return in
 	}
+}
+
+// frame runs the paths through an inlined call (see inline.go): the binding
+// statements and the helper's body; a `return` inside ends the frame and binds
+// its results to the left-hand side of the replaced statement (or, for
+// `return helper(…)`, returns them from the analysed function).
+func (pe *pathEnum) frame(in []Path, b *ast.BlockStmt, fr *inlineFrame) []Path {
+	curFrames = append(curFrames, fr)
+	out := pe.seq(in, b.List)
+	curFrames = curFrames[:len(curFrames)-1]
+	var res []Path
+	for _, q := range out {
+		switch {
+		case q.End == "return": // any return reaching the end of the frame is the helper's (or of a helper it returns)
+			rs, _ := q.EndNode.(*ast.ReturnStmt)
+			if fr.IsReturn {
+				res = append(res, q) // the caller returns what the helper returns
+				continue
+			}
+			q.End, q.EndNode = "fall", nil
+			if rs != nil && len(fr.Lhs) > 0 {
+				results := rs.Results
+				if len(results) == 0 && len(fr.Results) == len(fr.Lhs) {
+					// bare return with named results
+					for _, o := range fr.Results {
+						id := &ast.Ident{Name: o.Name(), NamePos: rs.Pos()}
+						pe.info.Uses[id] = o
+						results = append(results, id)
+					}
+				}
+				if len(results) == len(fr.Lhs) || len(results) == 1 {
+					synth := &ast.AssignStmt{Lhs: fr.Lhs, Tok: fr.Tok, TokPos: rs.Pos(), Rhs: results}
+					if assigned := pe.assigned(synth); len(assigned) > 0 {
+						pe.frameBind = true
+						pe.applyAssign(&q, synth, assigned)
+						pe.frameBind = false
+					}
+				}
+				if len(results) == len(fr.Lhs) {
+					nb := map[types.Object]ast.Expr{}
+					for k, v := range q.bind {
+						nb[k] = v
+					}
+					for i, l := range fr.Lhs {
+						o := objOfIdent(pe.info, l)
+						if o == nil {
+							continue
+						}
+						nb[o] = results[i]
+						// an error built on the spot is not nil
+						if strings.HasPrefix(classifyValue(pe.info, pe.fd, results[i], 0), "err(") {
+							if t, ok := pe.xlatP(&q).term(l); ok && t != "nil" {
+								q.Conds = append(q.Conds, CondStep{Label: "assign", At: len(q.Events), F: &FLit{eqAtom("nil", t), 2, 1}, Ver: q.ver})
+							}
+						}
+					}
+					q.bind = nb
+				}
+			}
+			res = append(res, q)
+		case q.End == "fall" && fr.IsReturn:
+			// the helper fell off its end: the caller returns (no results)
+			q.End, q.EndNode = "return", fr.Orig
+			res = append(res, q)
+		default:
+			res = append(res, q)
+		}
+	}
+	return res
 }
 
 // loop models a loop as zero or one iteration; events inside are flagged InLoop.
